@@ -95,7 +95,7 @@ def cell_script(rng, cls, sit, mode) -> List[Any]:
     for m in NAMES:
         if m != n and rng.random() < 0.5:
             blocks.append(g.build(rng.choice(CLASSES), m, rng.choice(SITS)))
-    if rng.random() < 0.8:
+    if rng.random() < 0.6:
         blocks.append(g.build(rng.choice(CLASSES), rng.choice(pnames(n)), rng.choice(SITS[1:])))
     rng.shuffle(blocks)
     cmds = [c for b in blocks for c in b]
@@ -106,12 +106,29 @@ def cell_script(rng, cls, sit, mode) -> List[Any]:
     cmds.append(["reopen-perms", cls, n, 24])
     if rng.random() < 0.5:
         cmds.append(["reopen-sublists", cls, n])
-    if rng.random() < 0.6:
+    if rng.random() < 0.4:
         cmds.append(["list-sessions", cls, n, rng.choice(["r+", "a"]), 2])
         cmds.append(["reopen-perms", cls, n, 6])
     other = rng.choice([m for m in NAMES if m != n])
-    cmds.append(["reopen-perms", rng.choice(CLASSES), other, 6])
+    cmds.append(["reopen-perms", rng.choice(CLASSES), other, 3])
     cmds.append(["classify", n])
+    return cmds
+
+
+def discard_pattern(rng, cls, npatches) -> List[Any]:
+    """Fixed shape run in every check: base + npatches committed patches + one uncommitted patch
+    (left by close(commit=False)), next to prefix-related neighbours; then the `discard-perms`
+    macro: writable reopen by explicit list in every order, discard, reopen by name and by list."""
+    g = Gen(rng)
+    n = "foo" if npatches == 1 else "fo"
+    cmds = g.session("IH5Record", "w", "foo2", commit=True) + g.session(cls, "x", "foo-p1", commit=False)
+    cmds += g.session(cls, "w", n, commit=True)
+    for _ in range(npatches):
+        cmds += g.session(cls, "r+", n, lo=1, hi=2, commit=True)
+    cmds += g.session(cls, "a", n, lo=1, hi=2, commit=False)
+    cmds.append(["classify", n])
+    cmds.append(["discard-perms", cls, n, 24])
+    cmds.append(["reopen-perms", cls, n, 6])
     return cmds
 
 
@@ -150,9 +167,9 @@ def w_names(case):
 
 
 def category(what: str) -> str:
-    for key in ("view after reopen", "view after discard", "of another record", "committed container",
+    for key in ("discard_patch removed", "view after reopen", "view after discard", "of another record", "committed container",
                 "sidecar of committed", "must not alter anything", "the contract says", "disappeared",
-                "left containers", "is not empty", "by the complete file list", "name-index coherent", "list_records =", "find_files(", "close() left", "close(commit=False) committed", "reports mode", "writable container present",
+                "left containers", "is not empty", "by the complete file list", "discard_patch removed", "name-index coherent", "list_records =", "find_files(", "close() left", "close(commit=False) committed", "reports mode", "writable container present",
                 "succeeded on a record opened read-only"):
         if key in what:
             return key
@@ -180,7 +197,7 @@ def gen_name_cases(ctx) -> List[Dict[str, Any]]:
     rng = ctx.rng
     cases = []
     alphabet = "abfoAZ09-"
-    for i in range(ctx.budget(60, 600)):
+    for i in range(ctx.budget(40, 600)):
         pool = list(NAMES)
         for _ in range(rng.randint(0, 4)):
             base = rng.choice(pool)
@@ -224,13 +241,17 @@ def run(ctx: vlib.Ctx):
     # ---- 1. scripts: every mode x situation cell for both classes, then random multi-session scripts
     reps = ctx.budget(2, 10)
     cases = []
+    for cls in CLASSES:          # fixed discard-by-list pattern, first because it is the longest script
+        for npatches in (2, 1):
+            cases.append({"cmds": discard_pattern(ctx.rng, cls, npatches), "seed": ctx.rng.randrange(10**9),
+                          "rich": True, "cell": [cls, "upatch", "discard-by-list"]})
     for cls in CLASSES:
         for sit in SITS:
             for mode in MODES:
                 for _ in range(reps):
                     cases.append({"cmds": cell_script(ctx.rng, cls, sit, mode), "seed": ctx.rng.randrange(10**9),
                                   "rich": True, "cell": [cls, sit, mode]})
-    for _ in range(ctx.budget(36, 500)):
+    for _ in range(ctx.budget(20, 500)):
         cases.append({"cmds": random_script(ctx.rng), "seed": ctx.rng.randrange(10**9), "rich": True, "cell": None})
     results = vlib.pmap(w_script, cases, chunksize=2)
 
@@ -300,8 +321,11 @@ def run(ctx: vlib.Ctx):
                 return r2["status"] == "ok" and any(category(p["what"]) == cat for p in r2["problems"])
             small = conc
             try:
-                if fails(list(conc)):
-                    small = vlib.ddmin(list(conc), fails, budget=60)
+                head = list(conc[:pr["step"] + 1])      # nothing after the failing step matters
+                if fails(head):
+                    small = vlib.ddmin(head, fails, budget=30)
+                elif fails(list(conc)):
+                    small = vlib.ddmin(list(conc), fails, budget=30)
             except Exception:  # noqa: BLE001
                 small = conc
             ctx.violation(f"C03 oracle on the code: {pr['what']}",
